@@ -102,13 +102,13 @@ CLAIMED = {
 
  "C04": dict(
     category="model_checking",
-    text="TxnModel is the oracle (a completed statement returns exactly the answer over committed data (+) its own transaction's earlier writes, or its transaction aborts). For seeded pairs of 1-3-statement programs over point / range / sequential reads, inserts, deletes, in-place, key-changing and relocating updates on 3 rows, EVERY statement-level interleaving (incl. commit/abort positions) is executed on a fresh engine by one goroutine, plus sampled three-transaction schedules; after each schedule the committed table is read back through the scan and the index path. TLC validates every answer and classifies differences (dirty / hidden / wrong / final).",
+    text="TxnModel is the oracle (a completed statement returns exactly the answer over committed data (+) its own transaction's earlier writes, or its transaction aborts). For seeded pairs of 1-3-statement programs over point / range / sequential reads, inserts, deletes, in-place, key-changing and relocating updates on 3 rows, EVERY statement-level interleaving (incl. commit/abort positions) is executed on a fresh engine by one goroutine, plus sampled three-transaction schedules; after each schedule the committed table is read back through the scan and the index path. TLC validates every answer and classifies differences (dirty / hidden / wrong / final). In addition one schedule per edge of the TwoPL state graph (shortest path + the edge + an observation suffix) is executed, and under real goroutine concurrency 4 goroutines run transactions of their own whose merged invocation / return history is judged by TLC (TxnHistoryTrace: dirty / stale / own-write / hidden reads, final table).",
     design_ref="DESIGN.md section 5 C04",
-    note="Trusted: TLC, the schedule driver. Statement granularity (goroutine-level interleavings inside a statement are not explored). One open known finding (key-changing update hides the committed row from index lookups of other transactions).",
+    note="Trusted: TLC, the schedule driver, the shared atomic counter that orders the concurrent history. One open known finding (key-changing update hides the committed row from index lookups of other transactions).",
     technique="TLA+ mechanism spec (TwoPL) model-checked against the contract; TLA+ contract spec (TxnModel) as oracle for exhaustive statement-level interleavings of program pairs executed on the real engine, judged by TLC trace validation"),
  "C05": dict(
     category="model_checking",
-    text="Same schedules as C04; TxnModel maintains, per schedule, which foreign row versions each transaction was shown and which it overwrote (every write stores a fresh version), and at the end of each schedule TLC checks that the dependency graph (wr, ww, rw edges; versions installed at commit) over the committed transactions is acyclic - no lost update, no unrepeatable read, no write skew on rows both read.",
+    text="Same schedules as C04; TxnModel maintains, per schedule, which foreign row versions each transaction was shown and which it overwrote (every write stores a fresh version), and at the end of each schedule TLC checks that the dependency graph (wr, ww, rw edges; versions installed at commit) over the committed transactions is acyclic - no lost update, no unrepeatable read, no write skew on rows both read. The same graph is built and checked for the windows of concurrent goroutine transactions (TxnHistoryTrace).",
     design_ref="DESIGN.md section 5 C05",
     note="Trusted: TLC, the schedule driver. Statement granularity; phantoms excluded as documented by the property. Shares the open known finding of C04.",
     technique="TLA+ mechanism spec (TwoPL) model-checked for Acyclic; TLA+ contract spec with ghost dependency graph, acyclicity checked by TLC on every recorded schedule"),
